@@ -567,12 +567,20 @@ def _check_radial_one(aa, r_min, allow_centre, kind, centre, angle, coef, points
     sel = inside & ~at_centre
     want[sel] = frame[sel] * (r_min / r[sel])[:, None]
     p = _radial_profile(aa, coef, centre, angle, None)
+    before = np.array(grid, dtype=float).copy()
     if kind == 0:
         res = p.bare_from(grid)
         res2 = None
     else:
         res = p.stacked_from(grid)
         res2 = p.stacked_grid_from(grid)
+    after = np.array(grid, dtype=float)
+    if after.shape != before.shape or not np.array_equal(after, before, equal_nan=True):
+        # the relocation is done "before evaluation" of THIS function; the caller's grid is the input of the next one
+        # (a profile with a smaller minimum must still receive the original coordinates)
+        k = int(np.argmax(np.abs(np.nan_to_num(after - before)).reshape(before.shape[0], -1).sum(axis=1))) if after.shape == before.shape else 0
+        return "the caller's grid was changed by the evaluation: coordinate %d was %r, is now %r -- the next profile evaluated on this grid no longer receives the input coordinates" % (
+            k, before.reshape(-1, 2)[k] if before.ndim > 1 else before[k], after.reshape(-1, 2)[k] if after.ndim > 1 else after[k])
     for seen in p.seen:
         if seen.shape != frame.shape:
             return "function handed %r coordinates for %r inputs" % (seen.shape, frame.shape)
